@@ -69,7 +69,8 @@ func VerifConstruct() {
 			k := vRange(tag+"n", 0, 2)
 			w := vBytes(tag, k)
 			for i := range w {
-				vAssume(w[i] == ' ' || w[i] == '\t' || w[i] == '\n' || w[i] == '\r')
+				c := w[i]
+				vAssume(c == ' ' || c == '\t' || c == '\n' || c == '\r')
 			}
 			return w
 		}
